@@ -60,7 +60,8 @@ CT_POOL_XML = [  # types python-pptx maps to XmlPart subclasses: payload is re-s
     "application/vnd.openxmlformats-officedocument.presentationml.presentation.main+xml",
 ]
 EXTS = ["xml", "bin", "png", "PNG", "jpeg", "jpg", "dat", "", "Xml", "BIN", "rels2", "a.b"]
-SEGS = ["a", "b", "ppt", "slides", "media", "x1", "X1", "deep", "d-e", "f_g", "n0", "docProps", "aX", "a.b"]
+SEGS = ["a", "b", "ppt", "slides", "media", "x1", "X1", "deep", "d-e", "f_g", "n0", "docProps", "aX", "a.b",
+        "my%20dir", "%C3%A9t%C3%A9"]   # percent-escapes are part of the name: the ZIP item is called exactly that
 RELTYPES = ["http://schemas.openxmlformats.org/officeDocument/2006/relationships/image",
             "http://schemas.openxmlformats.org/officeDocument/2006/relationships/slide",
             "http://schemas.openxmlformats.org/officeDocument/2006/relationships/officeDocument",
@@ -81,7 +82,7 @@ def gen_pkg(r: random.Random) -> dict:
         tries += 1
         depth = r.choice([0, 1, 1, 2, 2, 3, 4])
         segs = [r.choice(SEGS) for _ in range(depth)]
-        base = r.choice(["part", "image", "slide", "x", "P", "n"]) + r.choice(["", "1", "2", "10", "007"])
+        base = r.choice(["part", "image", "slide", "x", "P", "n", "my%20picture", "na%C3%AFve", "100%25"]) + r.choice(["", "1", "2", "10", "007"])
         ext = r.choice(EXTS)
         name = "/" + "/".join(segs + [base + ("." + ext if ext else "")])
         lo = name.lower()
@@ -438,6 +439,8 @@ def _features(trace, ref_in):
                 f.add("updir-target")
             if not (x.rid.startswith("rId") and x.rid[3:].isdigit() and not x.rid[3:].startswith("0")):
                 f.add("odd-rid")
+    if any("%" in t_ for t_ in tg):
+        f.add("percent-escaped-part-name-reachable")
     if any(len(v) > 1 for v in tg.values()):
         f.add("shared-target")
     exts = {}
